@@ -312,7 +312,9 @@ def run(p, led, tier):
     import itertools as _it8
     bad8, n8 = [], 0
     for names in (("a", "b", "c"), ("r", "r", "r"), ("a", "r", "r"), ("r", "a", "r"), ("r", "r")):
-        for verdicts in _it8.product(("PERMIT", "BLOCK", "CRASH"), repeat=len(names)):
+        # GARBLED: the member answers PERMIT with a payload whose stated confidence is not a number — a voter that failed
+        # (turning the answer into a ballot raises), so it may not count as support
+        for verdicts in _it8.product(("PERMIT", "BLOCK", "CRASH") + (("GARBLED",) if names == ("a", "b", "c") else ()), repeat=len(names)):
             for strategy in ("MAJORITY", "UNANIMOUS"):
                 def go8(o, _names=names, _verdicts=verdicts, _st=strategy):
                     it = Interp(p, o)
@@ -327,6 +329,8 @@ def run(p, led, tier):
                         polled.append(i)
                         if _verdicts[i] == "CRASH":
                             raise PyRaise(ExcVal("RuntimeError", ("agent crashed",)))
+                        if _verdicts[i] == "GARBLED":
+                            return interp.instantiate(ap, ["PERMIT", {"confidence": "high"}, 1.0], {})
                         return interp.instantiate(ap, [_verdicts[i], "payload", 1.0], {})
                     it.stubs["BioAgent.express"] = express
                     outs_ = []
@@ -343,7 +347,7 @@ def run(p, led, tier):
                 for outs_ in res8:
                     for rnd, r in enumerate(outs_, 1):
                         n8 += 1
-                        want = dict(polled=list(range(len(names))), total=len(names), permit=verdicts.count("PERMIT"), block=verdicts.count("BLOCK"), abstain=verdicts.count("CRASH"), nvotes=len(names))
+                        want = dict(polled=list(range(len(names))), total=len(names), permit=verdicts.count("PERMIT"), block=verdicts.count("BLOCK"), abstain=verdicts.count("CRASH") + verdicts.count("GARBLED"), nvotes=len(names))
                         got = {k_: r[k_] for k_ in want}
                         if got != want:
                             bad8.append(f"members {list(names)} voting {list(verdicts)} ({strategy}, vote {rnd}): polled {r['polled']}, reported total={r['total']} permit={r['permit']} block={r['block']} abstain={r['abstain']} in {r['nvotes']} ballots")
